@@ -35,6 +35,13 @@ Init ==
   \/ \E n \in ListLens :
        LET list == [i \in 1..n |-> (i * 4099) % 65536] IN
        c = [k |-> "unk", list |-> list, enc |-> EncUnknown(list)]
+  \* every 16-bit attribute type as a list entry (an entry is a number, not an attribute header: no alias mapping,
+  \* no range restriction), 64 consecutive types per list
+  \/ \E b \in 0..1023 :
+       LET list == [i \in 1..64 |-> b * 64 + i - 1] IN
+       c = [k |-> "unk", list |-> list, enc |-> EncUnknown(list)]
+  \/ \E t \in {0, 1, 32, 32800, 32802, 32767, 32768, 65535} :
+       c = [k |-> "unk", list |-> << t >>, enc |-> EncUnknown(<< t >>)]
 Next == UNCHANGED c
 Spec == Init /\ [][Next]_c
 
